@@ -406,8 +406,30 @@ func (i *interpreter) symBitop(op token.Token, k types.BasicKind, x, y value) va
 		if disjointBits(ux, uy) || disjointBits(uy, ux) {
 			return i.wrapK(C.Add(ux, uy), k)
 		}
+		// not evident from the term structure: ask the solver whether, under the path condition, one operand is a
+		// multiple of 2^n and the other below 2^n for some n (then x|y = x^y = x+y)
+		bits, _ := kindBits(k)
+		var cands []int
+		if bits <= 8 {
+			cands = []int{4, 1, 2, 3, 5, 6, 7}
+		} else {
+			cands = []int{8, 16, 24, 32, 40, 48, 56, 4, 12}
+		}
+		for _, pair := range [][2]*smt.Term{{ux, uy}, {uy, ux}} {
+			a, b := pair[0], pair[1]
+			for _, n := range cands {
+				if n >= bits {
+					continue
+				}
+				p := C.Const(pow2(n))
+				ok := C.And(C.Eq(C.Mod(a, p), C.ConstI(0)), C.Lt(b, p), C.Le(C.ConstI(0), b))
+				if r, _ := i.m.S.CheckWith(C.Not(ok)); r == smt.Unsat {
+					return i.wrapK(C.Add(ux, uy), k)
+				}
+			}
+		}
 	}
-	unsup("bit operation %s on two symbolic operands", op)
+	unsup("bit operation %s on two symbolic operands (%v [%v,%v] ; %v [%v,%v])", op, ux.K, ux.Lo, ux.Hi, uy.K, uy.Lo, uy.Hi)
 	return nil
 }
 
